@@ -20,6 +20,8 @@ OUTSIDE = {
     "C02-11": "the Inquiry *constructor* replaces the caller's allocation length before the encoder is reached: C02's oracle is 'decode returns what build_cdb was given', which still holds; arguments -> CDB is C01's statement, and C01 catches it (every value of every <=8-bit field with defaults)",
     "C06-11": "stale result after re-executing one command *object* (SCSICommand.unmarshall, the instance path): C06 is stated over the build/parse functions; 'the result is the decode of what the device left' is C13's statement, and C13 catches it",
     "C07-10": "only the *text* of the condition quotes a folded ASC/ASCQ; status handling, exception and .asc/.ascq are right: the text is C08's statement, and C08 catches it",
+    "C02-14": "the iSCSI transport pads the command's own CDB to 16 bytes while sending it: the encode/decode functions C02 speaks of are untouched; the CDB that reaches the binding (and the one the returned command holds) is C01's and C13's observation point, and both catch it",
+    "C04-14": "stale keys after re-executing one command *object* (SCSICommand.unmarshall merges results): the parsers C04 speaks of are untouched; 'the result is the decode of what the device left' on the instance path is C13's statement, and C13 catches it",
     "C09-11": "copy.deepcopy(command) shares the decoded result: no other command is created or used, the CDBs and buffers C09 speaks of stay independent; the returned command and its result are C13's observation point, and C13 catches it",
 }
 
